@@ -351,7 +351,7 @@ func c02main(c *Ctx) {
 				}
 				cores[failing].Core().Fail = func(_ int, p []byte) (bool, int) {
 					if silent {
-						return false, []int{len(p) / 2, 1, len(p) - 1}[cnt]
+						return false, []int{len(p) / 2, len(p)/3 + 1, len(p) - 1}[cnt]
 					}
 					return true, []int{len(p), len(p) / 2, 0}[cnt]
 				}
